@@ -279,6 +279,10 @@ func (set *ForkIdSet) MakeForkIds(srcs syntax.ForkRootList,
 }
 
 func (set *ForkIdSet) expandStaticForks(lookup *syntax.TypeLookup) {
+	if len(set.List) == 0 {
+		// One of the sources is statically empty, so there are no forks.
+		return
+	}
 	index := make(map[*syntax.CallStm]syntax.CollectionIndex, len(set.List[0]))
 	for i := 0; i < len(set.List); i++ {
 		fork := set.List[i]
